@@ -2,6 +2,7 @@
    from the JavaScript source on every run) equals the model Csv.v, function by function; hence it equals the Python index
    model CsvIx.v wherever both are defined (the C18 statement about the two sources). *)
 From RBQL Require Import Base Csv CsvSpec PyStr JsStr CsvIx CsvIxJs CsvStr_Proofs Csv_Proofs CsvLossy_Proofs PyStr_Proofs CsvIx_Proofs.
+From RBQL Require Import Utf16 Utf16_Proofs.
 
 (* ================================================================ the JavaScript primitives at positions inside the string *)
 
@@ -48,6 +49,16 @@ Proof.
   - destruct (skip_sp t) as [sp1 r1]. destruct (take_nsp r1) as [[|c w] r2]; [reflexivity|]. destruct (skip_sp r2) as [sp2 r3]. reflexivity.
 Qed.
 #[export] Hint Rewrite re_match_substring : pynorm.
+#[export] Hint Unfold jsix_extract_next_field : ixinline.
+
+Lemma js_indexof_ge s p i : (-1 <= js_indexof s p i)%Z.
+Proof. unfold js_indexof. destruct (find p (skipn (js_clamp (length s) i) s)); lia. Qed.
+
+Ltac gen_ranges ::=
+  repeat match goal with
+         | H : context [js_indexof ?s ?p ?i] |- _ =>
+             lazymatch goal with _ : (-1 <= js_indexof s p i)%Z |- _ => fail | _ => pose proof (js_indexof_ge s p i) end
+         end.
 
 (* ================================================================ extract_next_field *)
 
@@ -300,3 +311,10 @@ Proof.
   - injection H as H. apply (split_is_dialect dlm line fs w G). exact H.
   - f_equal. apply (split_is_dialect dlm line fs w G). exact H.
 Qed.
+
+(* strings of the Basic Multilingual Plane are their own UTF-16 unit sequences: there the unit-level statement IS the
+   code-point-level one.  (For astral characters the commutation of splitting with UTF-16 encoding is not proved.) *)
+Theorem jsix_smart_split_bmp pol src dlm pr : forallb bmp src = true -> forallb bmp dlm = true ->
+  (quoted_policy pol = true -> dlm <> []) ->
+  jsix_smart_split (utf16_encode src) (utf16_encode dlm) (policy_name pol) pr = Some (smart_split pol dlm pr src).
+Proof. intros Hs Hd H. rewrite !utf16_encode_bmp by assumption. apply jsix_smart_split_correct; assumption. Qed.
